@@ -148,6 +148,18 @@ fn count_osstr_chars_for_exec(s: &OsStr) -> usize {
     s.as_bytes().len() + 1
 }
 
+#[cfg(windows)]
+fn os_string_from_input(bytes: &[u8]) -> OsString {
+    String::from_utf8_lossy(bytes).into_owned().into()
+}
+
+#[cfg(unix)]
+fn os_string_from_input(bytes: &[u8]) -> OsString {
+    use std::os::unix::ffi::OsStrExt;
+    // Arguments are byte strings: input that is not UTF-8 reaches the command unchanged.
+    OsStr::from_bytes(bytes).to_os_string()
+}
+
 #[derive(Clone)]
 struct MaxCharsCommandSizeLimiter {
     current_size: usize,
@@ -586,7 +598,7 @@ where
         }
 
         Ok(Some(Argument {
-            arg: String::from_utf8_lossy(&result[..]).into_owned().into(),
+            arg: os_string_from_input(&result[..]),
             kind: if terminated_by_newline {
                 ArgumentKind::HardTerminated
             } else {
@@ -635,7 +647,7 @@ where
                     &buf[..]
                 };
                 break Some(Argument {
-                    arg: String::from_utf8_lossy(bytes).into_owned().into(),
+                    arg: os_string_from_input(bytes),
                     kind: ArgumentKind::HardTerminated,
                 });
             }
